@@ -3,6 +3,7 @@ package pgfake
 import (
 	"fmt"
 	"net"
+	"runtime/debug"
 	"strings"
 	"sync"
 
@@ -399,10 +400,11 @@ func isTxControl(st stmt) bool {
 
 // analyze runs statement analysis under the server mutex, waiting for
 // conflicting DDL of other transactions if necessary.
-func (c *conn) analyze(ps parsedStmt, given []Type) (*plan, error) {
+func (c *conn) analyze(ps parsedStmt, given []Type) (p *plan, err error) {
 	s := c.s
 	s.mu.Lock()
 	defer s.mu.Unlock()
+	defer recoverInternal(&err)
 	tx := c.currentTxn()
 	for {
 		p, err := s.analyzeStatement(ps, tx, given)
@@ -420,6 +422,22 @@ func (c *conn) analyze(ps parsedStmt, given []Type) (*plan, error) {
 	}
 }
 
+// recoverInternal turns a panic inside the engine into an error reply. A
+// *pgError panic is a deliberate bail-out; anything else is a bug in the
+// fake, reported as SQLSTATE XX000 and recorded in Unsupported() so that a
+// harness never mistakes it for behaviour of the code under test.
+func recoverInternal(err *error) {
+	r := recover()
+	if r == nil {
+		return
+	}
+	if pe, ok := r.(*pgError); ok {
+		*err = pe
+		return
+	}
+	*err = &pgError{Code: codeInternal, Message: fmt.Sprintf("pgfake: internal error: %v\n%s", r, debug.Stack()), fake: true}
+}
+
 func (c *conn) currentTxn() *txn {
 	if c.tx != nil {
 		return c.tx
@@ -428,7 +446,8 @@ func (c *conn) currentTxn() *txn {
 }
 
 // execute runs one analysed statement, managing transaction state.
-func (c *conn) execute(p *plan, params []Datum, single bool) (*result, error) {
+func (c *conn) execute(p *plan, params []Datum, single bool) (res *result, err error) {
+	defer recoverInternal(&err)
 	s := c.s
 	select {
 	case <-c.cancelCh: // drop a stale cancel request
@@ -582,7 +601,11 @@ func (c *conn) execTxStmt(ts *txStmt) (*result, error) {
 // simple protocol
 
 func (c *conn) handleQuery(sql string) {
-	stmts, err := parseCached(sql)
+	var stmts []parsedStmt
+	err := validateText([]byte(sql))
+	if err == nil {
+		stmts, err = parseCached(sql)
+	}
 	if err != nil {
 		c.sendError(err, sql)
 		c.failTx()
@@ -626,6 +649,9 @@ func (c *conn) handleParse(m *pgproto3.Parse) error {
 		if _, dup := c.stmts[m.Name]; dup {
 			return errf(codeDupPrepared, "prepared statement %q already exists", m.Name)
 		}
+	}
+	if err := validateText([]byte(m.Query)); err != nil {
+		return err
 	}
 	stmts, err := parseCached(m.Query)
 	if err != nil {
@@ -691,7 +717,7 @@ func (c *conn) handleBind(m *pgproto3.Bind) error {
 			var err error
 			if formatFor(m.ParameterFormatCodes, i) == 1 {
 				v, err = binaryIn(raw, types[i])
-			} else {
+			} else if err = validateText(raw); err == nil {
 				v, err = textIn(string(raw), types[i])
 			}
 			if err != nil {
